@@ -3,7 +3,9 @@
      followed by apply_matcher (Model/Matcher.v, similarity = the measure's raw score on the values
      found by key, same threshold / operator / allow_missing / n_jobs)
    is defined and its result is related to the join's result by `pipeline_spec` (same key pairs,
-   same scores after rounding to 4 decimals; both-empty and gray pairs aside).  No hypothesis
+   same scores after rounding to 4 decimals; both-empty and gray pairs aside -- gray for the
+   join's raw score or for the matcher's raw score, which differ on equal token sets listed in
+   different orders: matcher_raw_score, Proofs/CosSelf.v).  No hypothesis
    about outputs: the filter stage's completeness / soundness come from C04_filter_tables, the
    matcher stage from apply_matcher_rows_b, the join from api_join_spec, the scores from
    ModelScores / ModelArith.                                                                *)
@@ -11,7 +13,7 @@ From Coq Require Import ZArith Bool List String Lia SpecFloat PeanoNat.
 From SSJ Require Import F64 PyNum HelperGen TokenOrdering Measures Filters Joins Api Matcher JoinSpec MetaSpec
      OverlapFacts ApiLift ApiJoinPairs ApiJoinSpec PartitionInst
      ApiFilterTables ApiFilterJCD ApiFilterRefine ApiFilterClosed MatcherFacts MatcherChunks
-     LawsBase LawsScore LawsSpec Laws LawsPipe ModelScores ModelArith.
+     LawsBase LawsScore LawsSpec Laws LawsPipe ModelScores ModelArith CosSelf.
 Import ListNotations.
 Open Scope string_scope.
 Open Scope list_scope.
@@ -21,10 +23,10 @@ Open Scope Z_scope.
 (* the matcher's view of a table: key -> value id (the key itself: keys are unique) or missing *)
 Definition mrows_of (T : list row) : list mrow :=
   map (fun r : row => (fst r, if present r then Some (fst r) else None)) T.
-(* sim_function(tokenize(l value), tokenize(r value)) *)
+(* sim_function(tokenize(l value), tokenize(r value)): get_raw_score on the tokenizer's LISTS *)
 Definition sim_of (m : string) (L R : list row) (a b : Z) : pyval :=
   match find_row a L, find_row b R with
-  | Some l, Some r => raw_score m (toks_of l) (toks_of r)
+  | Some l, Some r => matcher_raw_score m (toks_of l) (toks_of r)
   | _, _ => PNone
   end.
 (* the candidate set: _id = position, the two key columns of the filter's output *)
@@ -43,45 +45,27 @@ Definition pipeline_model (c : jcase) (k : fkind) (m : string) : option (list ou
   match filter_stage c k m with Some cands => matcher_stage c m cands | None => None end.
 
 (* ================================================================== pipeline_law on the rows *)
-Definition round_agrees_rows (c : jcase) (m : string) : Prop :=
-  forall l r, In l (j_L c) -> In r (j_R c) -> present l = true -> present r = true ->
-    cmp_op (j_op c) (reported_score m (toks_of l) (toks_of r)) (j_t c) = true ->
-    score_same (round_score (reported_score m (toks_of l) (toks_of r)))
-               (round_score (raw_score m (toks_of l) (toks_of r))) = true.
+(* round_agrees_rows, pipeline_law_rows: Proofs/LawsPipe.v *)
 
-Theorem pipeline_law_rows c m obsJ obsP :
-  j_entry c = EJoin m -> set_measure m = true -> j_with_score c = true ->
-  pipeline_sound_raw c obsP = true -> pipeline_complete_raw c obsP = true ->
-  missing_spec c obsP = true -> typed_scores c obsP = true ->
-  complete_spec c obsJ = true -> sound_spec c obsJ = true -> missing_spec c obsJ = true ->
-  typed_scores c obsJ = true ->
-  round_agrees_rows c m -> pipeline_spec c obsJ obsP = true.
+(* rounding the join's score again gives the rounded score of the matcher (J/C/D, token sets in
+   the envelope): on equal lists and on different sets the matcher's score is the join's raw
+   score; on equal sets listed differently it is the formula at o = a = b, which rounds to 1.0 *)
+Lemma round_agrees_sets_matcher x y m op t : toks_ok x -> toks_ok y ->
+  is_jcd m = true -> lower_op op -> cmp_op op (reported_score m x y) t = true ->
+  score_same (round_score (reported_score m x y)) (round_score (matcher_raw_score m x y)) = true.
 Proof.
-  intros Ee Hmm Hws HPs HPc HPm HPt HJc HJs HJm HJt Hround.
-  assert (forall c', In c' [c] -> same_tables c c') as Hst.
-  { intros c' [<-|[]]. split; reflexivity. }
-  assert (set_case c = true) as Hset by (unfold set_case; rewrite Ee; exact Hmm).
-  pose proof (keep_determined_typed c [c] obsJ Hset Hws HJc HJs HJm HJt (or_introl eq_refl) Hst) as DJ.
-  assert (forall s v, trel s v = true -> seq (round_score s) (round_score v) = true) as Hr.
-  { intros s v H. apply seq_round. apply trel_seq; exact H. }
-  pose proof (determined_round _ _ _ _ _ _ _ _ DJ Hr) as DJr.
-  pose proof (determined_round _ _ _ _ _ _ _ _ (pipe_determined c m obsP Ee Hmm HPs HPc HPm HPt) Hr) as DPr.
-  unfold pipeline_spec.
-  eapply (determined_eq _ _ _ _ _ _ _ _ _ _ _ DJr DPr).
-  - intros l r _ Hg. apply negb_true_iff in Hg. apply (exclg_in c) in Hg; [|left; reflexivity].
-    apply excl1_false in Hg. destruct Hg as [Hbe Hgr].
-    unfold exp_in, raw_in. destruct (present l && present r) eqn:Ep; [|reflexivity].
-    destruct (both_empty l r) eqn:Eb; [discriminate Hbe|].
-    unfold exp_cmp. rewrite Ee. symmetry. apply (pair_gray_false_cmp c m l r Ee Ep Eb Hgr).
-  - intros l r s s' [Hfl Hfr] Hg Hin H1 H2. cbv beta in H1, H2.
-    rewrite (seq_score_same _ _ _ _ H1 H2).
-    apply negb_true_iff in Hg. apply (exclg_in c) in Hg; [|left; reflexivity].
-    apply excl1_false in Hg. destruct Hg as [Hbe _].
-    destruct (find_row_some _ _ _ Hfl) as [Hl _]. destruct (find_row_some _ _ _ Hfr) as [Hr' _].
-    unfold exp_in in Hin. unfold exp_score, raw_sc. destruct (present l && present r) eqn:Ep; [|reflexivity].
-    destruct (both_empty l r) eqn:Eb; [discriminate Hbe|].
-    apply andb_true_iff in Ep. destruct Ep as [Pl Pr].
-    unfold exp_cmp in Hin. unfold exp_sc. rewrite Ee in *. apply Hround; assumption.
+  intros Hx Hy Hm Hop Hc.
+  destruct (matcher_raw_cases m x y) as [E|(_ & El & E1 & E2 & _ & E)]; rewrite E.
+  - exact (round_agrees_sets_jcd x y Hx Hy m op t Hm Hop Hc).
+  - destruct Hx as [Nx Bx]. destruct Hy as [Ny By].
+    rewrite (dedup_id x Nx) in *. rewrite (dedup_id y Ny) in *.
+    assert (Ha : 1 <= len x < size_bound).
+    { split; [|exact Bx]. destruct x as [|w x]; [|unfold len; cbn [List.length]; lia].
+      exfalso. destruct y as [|w y]; [discriminate El|].
+      rewrite E1 in E2. unfold len in E2. cbn [List.length] in E2. lia. }
+    unfold reported_score, score4, sim_sizes. rewrite Hm. cbv zeta.
+    rewrite (dedup_id x Nx), (dedup_id y Ny), <- E2, E1, !Z.eqb_refl. cbn [andb round_score].
+    rewrite (self_round4 m (len x) (jcd_cases' m Hm) Ha), !round4_one. reflexivity.
 Qed.
 
 (* ================================================================== the matcher stage, id-free *)
@@ -141,17 +125,17 @@ Qed.
 Hypothesis HkL : NoDup (map fst (j_L c)).
 Hypothesis HkR : NoDup (map fst (j_R c)).
 
-(* on a candidate whose keys exist: the comparison on the raw score of the two values *)
+(* on a candidate whose keys exist: the comparison on the matcher's score of the two values *)
 Lemma kp_gp_found o l r :
   find_row (fst (fst o)) (j_L c) = Some l -> find_row (snd (fst o)) (j_R c) = Some r ->
   kp o = (if present l && present r
-          then cmp_op (j_op c) (raw_score m (toks_of l) (toks_of r)) (j_t c) else j_allow_missing c) /\
+          then cmp_op (j_op c) (matcher_raw_score m (toks_of l) (toks_of r)) (j_t c) else j_allow_missing c) /\
   gp o = (fst o, if present l && present r
-                 then (if j_with_score c then raw_score m (toks_of l) (toks_of r) else PNone) else PNone).
+                 then (if j_with_score c then matcher_raw_score m (toks_of l) (toks_of r) else PNone) else PNone).
 Proof.
   intros Hl Hr. destruct o as [[lk rk] s]. cbn [fst snd] in *.
   destruct (find_row_some _ _ _ Hl) as [_ El]. destruct (find_row_some _ _ _ Hr) as [_ Er].
-  assert (Es : sim (fst l) (fst r) = raw_score m (toks_of l) (toks_of r)).
+  assert (Es : sim (fst l) (fst r) = matcher_raw_score m (toks_of l) (toks_of r)).
   { unfold sim_of. rewrite El, Er, Hl, Hr. reflexivity. }
   unfold kp, gp, keep, out. cbn [fst snd].
   rewrite (lookup_mrows (j_L c) lk HkL), (lookup_mrows (j_R c) rk HkR), Hl, Hr. cbn [option_map].
@@ -345,7 +329,7 @@ Proof.
   unfold pipe_row. rewrite Egp in *. cbn [fst snd] in Hcnt |- *. rewrite Hl, Hr, Hcnt. cbn [Nat.eqb andb].
   rewrite Ekp in Hkp. destruct (present l && present r) eqn:Ep.
   - destruct (both_empty l r); [reflexivity|]. rewrite He, Hkp, Hws. cbn [andb].
-    pose proof (raw_score_shape m (toks_of l) (toks_of r) pl_set_measure) as S.
+    pose proof (matcher_raw_shape m (toks_of l) (toks_of r) pl_set_measure) as S.
     destruct (String.eqb m "OVERLAP").
     + rewrite S. apply score_same_int.
     + destruct S as [[f Ef]|[e Ee]]; rewrite ?Ef, ?Ee in *.
@@ -362,6 +346,8 @@ Proof.
   destruct (present l && present r) eqn:Ep; [|reflexivity].
   destruct (both_empty l r) eqn:Eb; [reflexivity|]. rewrite He.
   destruct (qualifies m (j_op c) (j_t c) (toks_of l) (toks_of r)) eqn:Eq; [|reflexivity].
+  destruct (cmp_op (j_op c) (matcher_raw_score m (toks_of l) (toks_of r)) (j_t c)) eqn:Em; [|reflexivity].
+  cbn [andb].
   (* the filter stage lists the pair *)
   unfold complete_spec in Hc. rewrite forallb_forall in Hc. specialize (Hc l Hl).
   rewrite forallb_forall in Hc. specialize (Hc r Hr). cbn [with_entry j_entry j_t j_L j_R] in Hc.
@@ -373,8 +359,7 @@ Proof.
   assert (Hfl : find_row (fst l) (j_L c) = Some l) by (apply find_row_unique; auto).
   assert (Hfr : find_row (fst r) (j_R c) = Some r) by (apply find_row_unique; auto).
   destruct (kp_gp_found c m HkL HkR (fst l, fst r, s0) l r Hfl Hfr) as [Ekp Egp].
-  rewrite Ep in Ekp, Egp. unfold qualifies in Eq. apply andb_true_iff in Eq.
-  rewrite (proj1 Eq) in Ekp.
+  rewrite Ep in Ekp, Egp. rewrite Em in Ekp.
   apply LawsBase.has_pair_In. eexists. apply pl_out_In. exists (fst l, fst r, s0).
   split; [exact Ho|]. split; [exact Ekp|]. rewrite Egp. reflexivity.
 Qed.
@@ -410,7 +395,7 @@ Proof.
   destruct (kp_gp_found c m HkL HkR o l r Hl Hr) as [Ekp Egp]. rewrite Egp. cbn [snd].
   rewrite Ekp in Hkp. rewrite (int_case_join c m He).
   destruct (present l && present r); [|reflexivity]. rewrite Hws.
-  pose proof (raw_score_shape m (toks_of l) (toks_of r) pl_set_measure) as S.
+  pose proof (matcher_raw_shape m (toks_of l) (toks_of r) pl_set_measure) as S.
   destruct (String.eqb m "OVERLAP").
   - rewrite S. reflexivity.
   - destruct S as [[f ->]|[e Ee]]; [reflexivity|].
@@ -422,7 +407,7 @@ Lemma pl_round_agrees : round_agrees_rows c m.
 Proof.
   intros l r Hl Hr Pl Pr Hc. destruct Hpm as [Hj| ->].
   - destruct Hv as [[_ [_ [HL [HR _]]]] _].
-    exact (round_agrees_sets_jcd (toks_of l) (toks_of r) (HL l Hl Pl) (HR r Hr Pr) m (j_op c) (j_t c)
+    exact (round_agrees_sets_matcher (toks_of l) (toks_of r) m (j_op c) (j_t c) (HL l Hl Pl) (HR r Hr Pr)
              Hj pl_lower Hc).
   - exact (round_agrees_overlap c (toks_of l) (toks_of r) Hc).
 Qed.
